@@ -349,5 +349,67 @@ fn stream_archive_file_to_stdout(
     Ok(())
 }
 //!end
+
+// ---- LogServerClient::connect: the handshake with the optional listener ----
+#[verifier::external_body] pub fn joined_names(s: &HashSet<String>) -> String { unimplemented!() }
+#[verifier::external_body] pub fn joined_strs(v: &Vec<&str>) -> String { unimplemented!() }
+// serde_json::from_slice: the filter the line denotes
+#[verifier::external_body] pub fn filter_from_slice(b: &[u8]) -> (r: Result<server::LogFilterInput, serde_json::Error>)
+    ensures r matches Ok(v) ==> json_parse::<server::LogFilterInput>(b@) == Some(v), r is Err ==> json_parse::<server::LogFilterInput>(b@) is None { unimplemented!() }
+#[verifier::external_body] pub(crate) fn get_header(filename: &str, target: &str, command: &str, color: bool) -> String { unimplemented!() }
+impl server::LogServerConfig { #[verifier::external_body] pub fn address(&self) -> String { unimplemented!() } }
+//!const src/app/log.rs STDOUT_FILE
+pub const STDOUT_FILE: &⟦'static ⟧str = "stdout.zst";
+//!end
+//!const src/app/log.rs STDERR_FILE
+pub const STDERR_FILE: &⟦'static ⟧str = "stderr.zst";
+//!end
+impl LogServerClient {
+//!fn src/app/log.rs LogServerClient::connect rules=R1,R10,R12 props=C20,C15
+    pub(crate) async fn connect(cfg: &server::LogServerConfig, Tracked(w): Tracked<&mut World>) -> ⟦(res: ⟧Result<Self, MonorailError>⟦)⟧
+@        ensures
+@            // C20: the filters this client applies are the ones the listener sent as its first line (one read: whatever arrives up to the
+@            // first newline or the end of the stream - a listener that goes away early is an error, never a wait)
+@            res matches Ok(c) ==> exists|line: Seq<u8>| json_parse::<server::LogFilterInput>(line) == Some(c.args), // [C20]
+@            // C15: connecting touches nothing of the run: no stored bytes, no compressor channel
+@            final(w).sink == old(w).sink, final(w).cc_errs == old(w).cc_errs, // [C15]
+    {
+        let mut stream = tokio::net::TcpStream::connect_addr(&cfg.address()).await?;
+        let mut args_data⟦: Vec<u8>⟧ = Vec::new();
+        // pull arg preferences from the server on connect
+        let mut br = tokio::io::BufReader::new(&mut stream);
+        br.read_until(b'\n', &mut args_data).await?;
+        let args: server::LogFilterInput = filter_from_slice(args_data.as_slice())?;
+        if args.include_stdout || args.include_stderr {
+            let targets = if args.targets.is_empty() {
+                String::from("(any target)")
+            } else {
+                joined_names(&args.targets)
+            };
+            let commands = if args.commands.is_empty() {
+                String::from("(any command)")
+            } else {
+                joined_names(&args.commands)
+            };
+            let mut files⟦: Vec<&str>⟧ = vec![];
+            if args.include_stdout {
+                files.push(STDOUT_FILE);
+            }
+            if args.include_stderr {
+                files.push(STDERR_FILE);
+            }
+            stream
+                .write_all(get_header(&joined_strs(&files), &targets, &commands, false).as_bytes(), Tracked(w))
+                .await
+                .map_err(MonorailError::from)?;
+        }
+
+        Ok(Self {
+            stream: sync::Arc::new(tokio::sync::Mutex::new(stream)),
+            args,
+        })
+    }
+//!end
+}
 } // verus!
 fn main() {}
